@@ -89,6 +89,15 @@ func (w *world) Run(t *rt.Tape, trace bool) *core.Result {
 		}
 		smp.Delays = append(smp.Delays, fmt.Sprintf("p%d: join+%v connect+%v", i, joinDelay[i], connDelay[i]))
 	}
+	// One case in six: fail, then carry on. The address of one joining party is still taken when it
+	// first calls Join (its predecessor has not gone yet): that Join fails; the operator frees the
+	// address and the party joins again. The mesh must form all the same.
+	busy := -1
+	if n > 1 && t.Choose(rt.SGen, 6) == 0 {
+		busy = 1 + t.Choose(rt.SGen, n-1)
+		smp.Delays = append(smp.Delays, fmt.Sprintf("p%d: its address is in use at its first Join, which fails; it joins again", busy))
+		res.Reach = map[string]int{"fail-then-carry-on": 1}
+	}
 	res.Sample = smp
 	res.Class = fmt.Sprintf("n=%d k=%d", n, k)
 
@@ -106,6 +115,15 @@ func (w *world) Run(t *rt.Tape, trace bool) *core.Result {
 				}()
 				if p.id != 0 {
 					rt.Sleep(joinDelay[p.id])
+					if p.id == busy {
+						blocker, err := simnet.Listen("tcp", p.addr)
+						if err == nil {
+							if _, ferr := p2p.Join(ps[0].addr, p.addr, p.id, k); ferr != nil {
+								rt.Reach("fail-then-carry-on.first-join-failed")
+							}
+							blocker.Close()
+						}
+					}
 					p.nw, p.joinErr = p2p.Join(ps[0].addr, p.addr, p.id, k)
 					rt.Tracef("HARNESS party %d: Join returned err=%v", p.id, p.joinErr)
 				}
